@@ -14,6 +14,7 @@ import (
 	"sort"
 	"strings"
 	"sync"
+	"sync/atomic"
 	"testing"
 	"time"
 )
@@ -116,7 +117,13 @@ type apiOutcome struct {
 	panic interface{}
 }
 
+// apiCases counts the library calls (Parse, Retrieve, evaluations of a parsed function) a run made
+var apiCases int64
+
+func apiCount() { atomic.AddInt64(&apiCases, 1) }
+
 func apiEval(f func(interface{}) ([]interface{}, error), doc interface{}) (o apiOutcome, raw []interface{}) {
+	apiCount()
 	defer func() {
 		if r := recover(); r != nil {
 			o.panic = r
@@ -139,6 +146,7 @@ func apiParse(t *testing.T, path string, cfg Config) (f func(interface{}) ([]int
 			f = nil
 		}
 	}()
+	apiCount()
 	fn, err := Parse(path, cfg)
 	if err != nil {
 		return nil
@@ -292,6 +300,7 @@ func apiCheckConcurrent(t *testing.T) {
 				for ji := range jobs {
 					j := jobs[(ji+g*7)%len(jobs)]
 					if g%2 == 1 {
+						apiCount()
 						_, _ = Parse(paths[(ji+g)%len(paths)], cfg)
 					}
 					for dk := range docs {
@@ -442,6 +451,7 @@ func apiSelect(t *testing.T, filter string, doc interface{}, container string) (
 			ok = false
 		}
 	}()
+	apiCount()
 	res, err := Retrieve("$."+container+"[?("+filter+")]", doc)
 	ids = map[int]bool{}
 	if err != nil {
@@ -621,15 +631,27 @@ func apiCheckFunctions(t *testing.T) {
 		}
 		return nil, fmt.Errorf("nan")
 	})
-	cfg.SetAggregateFunction("agg", func(p []interface{}) (interface{}, error) { calls = append(calls, "agg:"+apiSnapshot(p)); return float64(len(p)), nil })
-	cfg.SetAggregateFunction("aggfail", func(p []interface{}) (interface{}, error) { calls = append(calls, "aggfail:"+apiSnapshot(p)); return nil, fmt.Errorf("x") })
+	cfg.SetAggregateFunction("agg", func(p []interface{}) (interface{}, error) {
+		calls = append(calls, "agg:"+apiSnapshot(p))
+		return float64(len(p)), nil
+	})
+	cfg.SetAggregateFunction("aggfail", func(p []interface{}) (interface{}, error) {
+		calls = append(calls, "aggfail:"+apiSnapshot(p))
+		return nil, fmt.Errorf("x")
+	})
 	docs := []string{`{"a":[[1,2],[3]],"b":[4,5],"c":{"x":1,"y":2},"d":7}`, `[1,2,3]`, `[[1],[2,3]]`, `{"a":1,"b":2}`, `{"a":[[1,2]]}`, `[[1,2]]`, `{"c":{"x":[7,8]}}`}
-	prefixes := []string{`$.a`, `$.a.*`, `$.a[0]`, `$.a[*]`, `$.b`, `$.b[*]`, `$.c`, `$.c.*`, `$..x`, `$.*`, `$[*]`, `$[0]`, `$`, `$['a','b']`, `$[0,1]`, `$[?(@)]`, `$.d`, `$.zz`}
+	prefixes := []string{`$.a`, `$.a.*`, `$.a[0]`, `$.a[*]`, `$.b`, `$.b[*]`, `$.c`, `$.c.*`, `$..x`, `$.*`, `$[*]`, `$[0]`, `$`, `$['a','b']`, `$[0,1]`, `$[?(@)]`, `$.d`, `$.zz`,
+		// the leading `$` omitted
+		`a`, `a.*`, `a[0]`, `a[*]`, `a[*][0]`, `b[*]`, `c.*`, `*`, `[*]`, `[0]`, `['a','b']`, `[0,1]`, `[?(@)]`, `[0][*]`, `a[0:1]`,
+		// a multi-valued step followed by further steps, recursive descent before each bracket form
+		`$.a[*][0]`, `$.a[0][*]`, `$[*][0]`, `$.*[0]`, `$..['a','b']`, `$..['x','y']`, `$..[0]`, `$..[0,1]`, `$..*`, `$..[?(@)]`, `$.c['x','y']`, `$['c','zz'].x`}
 	for _, ds := range docs {
 		for _, pre := range prefixes {
+			apiCount()
 			base, berr := Retrieve(pre, apiDecode(ds))
 			// filter function: once per selected value, in result order
 			calls = nil
+			apiCount()
 			res, err := Retrieve(pre+".rec()", apiDecode(ds), cfg)
 			var want []string
 			for _, v := range base {
@@ -645,6 +667,7 @@ func apiCheckFunctions(t *testing.T) {
 			}
 			// aggregate: exactly one call with all values, or with the elements of the single array of a single-valued path
 			calls = nil
+			apiCount()
 			res, err = Retrieve(pre+".agg()", apiDecode(ds), cfg)
 			if berr == nil {
 				single := !strings.ContainsAny(pre, "*?,:") && !strings.Contains(pre, "..")
@@ -659,16 +682,40 @@ func apiCheckFunctions(t *testing.T) {
 			}
 			// chained: left to right
 			calls = nil
+			apiCount()
 			res, err = Retrieve(pre+".inc().inc()", apiDecode(ds), cfg)
-			if berr == nil && err == nil {
-				for i, v := range base {
-					if f, ok := v.(float64); !ok || i >= len(res) || res[i] != f+2 {
-						_ = f
+			allNum := berr == nil
+			for _, v := range base {
+				if _, ok := v.(float64); !ok {
+					allNum = false
+				}
+			}
+			if allNum {
+				var want []string
+				for _, v := range base {
+					want = append(want, "inc:"+apiSnapshot(v))
+				}
+				for _, v := range base {
+					want = append(want, "inc:"+apiSnapshot(v.(float64)+1))
+				}
+				wantCalls := append([]string{}, want...)
+				sort.Strings(wantCalls)
+				gotCalls := append([]string{}, calls...)
+				sort.Strings(gotCalls)
+				bad := err != nil || len(res) != len(base) || strings.Join(gotCalls, "|") != strings.Join(wantCalls, "|")
+				for i := range base {
+					if !bad && res[i] != base[i].(float64)+2 {
+						bad = true
 					}
+				}
+				if bad {
+					t.Errorf("REPRODUCED: %q on %s: chained filter functions: calls %v result %s err %v; the path before selects %s", pre+".inc().inc()", ds, calls, apiSnapshot(res), err, apiSnapshot(base))
+					return
 				}
 			}
 			// all functions failing => ErrorFunctionFailed
 			calls = nil
+			apiCount()
 			_, err = Retrieve(pre+".aggfail()", apiDecode(ds), cfg)
 			if berr == nil {
 				if _, ok := err.(ErrorFunctionFailed); !ok {
@@ -729,6 +776,7 @@ func apiCheckErrors(t *testing.T) {
 						cur = v
 					}
 				}
+				apiCount()
 				_, err := Retrieve(path, apiDecode(ds))
 				got := ""
 				if err != nil {
@@ -768,6 +816,7 @@ func apiCheckErrors(t *testing.T) {
 			}
 			for _, tail := range []string{"", ".z"} {
 				path := "$.v" + k.step + tail
+				apiCount()
 				_, err := Retrieve(path, apiDecode(v.doc))
 				want := fmt.Sprintf("type unmatched (expected=%s, found=%s, path=%s)", k.expected, v.found, k.text)
 				if err == nil || err.Error() != want {
@@ -794,6 +843,7 @@ func apiCheckParse(t *testing.T, path string, cfgs ...Config) {
 			t.Errorf("REPRODUCED: Parse(%q) panicked: %v", path, r)
 		}
 	}()
+	apiCount()
 	f, err := Parse(path, cfgs...)
 	switch {
 	case f == nil && err == nil:
@@ -873,6 +923,7 @@ func apiCheckParseIndependent(t *testing.T) {
 	doc := apiDecode(`{"a":1,"b":[1,2]}`)
 	probe := func(ctx string) {
 		// without a config no function is known and results are plain values
+		apiCount()
 		if _, err := Parse(`$.a.f()`); err == nil {
 			t.Errorf("REPRODUCED: %s: Parse(`$.a.f()`) without Config succeeded: a function leaked from an earlier call", ctx)
 			return
@@ -880,15 +931,18 @@ func apiCheckParseIndependent(t *testing.T) {
 			t.Errorf("REPRODUCED: %s: Parse(`$.a.f()`) without Config: %T %v", ctx, err, err)
 			return
 		}
+		apiCount()
 		if _, err := Parse(`$.b.g()`, plain); err == nil {
 			t.Errorf("REPRODUCED: %s: aggregate function leaked into a call with an empty Config", ctx)
 			return
 		}
+		apiCount()
 		res, err := Retrieve(`$.a`, doc)
 		if err != nil || len(res) != 1 || res[0] != 1.0 {
 			t.Errorf("REPRODUCED: %s: Retrieve(`$.a`) without Config = %#v, %v (accessor mode or state leaked)", ctx, res, err)
 			return
 		}
+		apiCount()
 		res, err = Retrieve(`$.a.f()`, doc, withF)
 		if err != nil || len(res) != 1 || res[0] != "F" {
 			t.Errorf("REPRODUCED: %s: Retrieve(`$.a.f()`, withF) = %#v, %v", ctx, res, err)
@@ -900,6 +954,7 @@ func apiCheckParseIndependent(t *testing.T) {
 		for _, fp := range failing {
 			func() {
 				defer func() { recover() }()
+				apiCount()
 				_, _ = Parse(fp, cfg)
 			}()
 			probe(fmt.Sprintf("after the failing Parse(%q) with a Config", fp))
@@ -907,6 +962,7 @@ func apiCheckParseIndependent(t *testing.T) {
 				return
 			}
 		}
+		apiCount()
 		_, _ = Parse(`$.a.f()`, cfg)
 		probe("after a successful Parse with a Config")
 		if t.Failed() {
@@ -916,6 +972,7 @@ func apiCheckParseIndependent(t *testing.T) {
 	// a parsed function keeps the functions it was parsed with
 	cfg := Config{}
 	cfg.SetFilterFunction("f", func(v interface{}) (interface{}, error) { return "old", nil })
+	apiCount()
 	fn, err := Parse(`$.a.f()`, cfg)
 	if err == nil {
 		cfg.SetFilterFunction("f", func(v interface{}) (interface{}, error) { return "new", nil })
@@ -998,4 +1055,5 @@ func TestVerifReplay(t *testing.T) {
 		apiCheckTotal(t, docs, names)
 	}
 	_ = reflect.DeepEqual
+	fmt.Printf("BOUNDED-CASES: %d\n", atomic.LoadInt64(&apiCases))
 }
